@@ -25,15 +25,9 @@ Proof.
   assert (G : b = true <-> AddressG Documented a).
   { rewrite <- (valid_iff_grammar documented a). rewrite V. split; [intros ->; reflexivity|intros H; inversion H; reflexivity]. }
   rewrite in_app_iff, clause_in.
-  assert (Rest : ~ In 1 (if o_valid o
-      then clause 2 ((bytes_eqb (unhex_or_nil (o_type o)) t_tcp || bytes_eqb (unhex_or_nil (o_type o)) t_tls ||
-                      bytes_eqb (unhex_or_nil (o_type o)) t_local) &&
-                     bytes_eqb (unhex_or_nil (o_type o) ++ sep ++ unhex_or_nil (o_na o)) a) ++
-           clause 3 (eqh (join_host_port (unhex_or_nil (o_host o)) (unhex_or_nil (o_port o))) (o_na o))
-      else clause 4 (eqh t_wrong (o_type o) && eqh [] (o_na o) && eqh [] (o_host o) && eqh [] (o_port o) &&
-                     eqh [] (o_resolve o) && eqh [] (o_resolved o) && negb (o_public o) && negb (o_ishost o)))).
+  match goal with |- ~ (_ \/ In 1 ?rest) <-> _ => assert (Rest : ~ In 1 rest) end.
   { destruct (o_valid o).
-    - rewrite in_app_iff, !clause_in. intros [[_ E]|[_ E]]; discriminate.
+    - rewrite !in_app_iff, !clause_in. intros [[_ E]|[[_ E]|[_ E]]]; discriminate.
     - rewrite clause_in. intros [_ E]; discriminate. }
   split.
   - intros H. rewrite <- G. destruct (o_valid o), b; simpl in *; split; auto; intros; try discriminate;
